@@ -9,19 +9,19 @@ HERE = os.path.dirname(os.path.dirname(os.path.abspath(__file__)))
 
 # id -> (technique, level text, level note, design ref)
 P = {
- "C01": ("writer/reader table agreement, bit-slice inversion, interval fit of length classes, abstract execution of the packed-string reader per (kind, header byte), call binding, equality-shape (ast)",
+ "C01": ("writer/reader agreement by abstract execution of the decoder once per control byte (256-value finite domain, table- or chain-driven dispatch alike) and of the double-byte token path over every secondary-dictionary index; bit-slice inversion of integer writers/readers (delegating writers followed); interval fit of length classes; abstract execution of the packed-string reader per (kind, header byte); call binding; equality shape (ast + abstract interpretation)",
          "Structural clauses of the codec round trip decided on the source for all inputs: every integer writer/reader pair is a bit-exact inverse, each size-class branch implies the value fits the length form it writes, every control byte the encoder emits is dispatched by the decoder with the matching length reader, packing tables are inverse maps, the node list header counts exactly the items written, the packed-string reader abstractly executed for every kind and header byte emits exactly the symbols the writer packed (filler dropped iff flagged), every intra-codec call binds, and tree equality compares every component. Value-level byte-exact round trip of arbitrary strings is not decided.",
          "bytearray/list semantics of CPython; frame < 16 MiB (C05.guard); list size < 65536; strings Latin-1", "DESIGN.md §3 C01"),
- "C02": ("control-byte vocabulary vs independently transcribed format table, decoder alternative coverage, content type flow, dictionary vs reference copy, C01 length-class / packed-reader rules adopted as conformance clauses (ast)",
+ "C02": ("control-byte vocabulary (semantic per-byte dispatch traces of the decoder) vs an independently transcribed format table; double-byte prefixes evaluated for every secondary index; decoder alternative coverage; content type flow; dictionary vs reference copy; C01 length-class / packed-reader rules adopted (ast + abstract interpretation)",
          "The control-byte table extracted from encoder and decoder equals a format table transcribed from the published binary-XML description; the decoder has a branch for every permitted alternative form; node content is bytes on every content branch; both token lists equal the committed reference copy entry by entry; every size-class branch of the encoder declares a length that fits the form it writes and the packed-string reader yields the format's alphabet for every header byte. Byte equality with a second implementation is not decided (none is available offline).",
          "reference/tokens.json is WhatsApp's dictionary (it is the pinned upstream table; no second source offline); reference/format.json transcribes the published format", "DESIGN.md §3 C02"),
- "C03": ("abstract interpretation of the three encryption layers over symbolic stanzas: origin of every value sent down, failure handlers, once-per-envelope delivery, receipts for queued messages; manager exception mapping; store commits (C13.commit adopted)",
+ "C03": ("abstract interpretation of the three encryption layers over symbolic stanzas (origin of every value sent down, failure handlers, once-per-envelope delivery, receipts for queued messages, bounded queue evaluated at MAX-1/MAX entries); manager entry points abstractly executed with the cipher opaque (exception mapping, unpad once, padding scheme evaluated for all 255 lengths); store commits (C13.commit adopted)",
          "Confidentiality and handler shape only: nothing derived from a plaintext message body can flow down out of the encryption send layer except through the encrypt calls; failure handlers have the shape the property describes (duplicate -> one receipt and no delivery, invalid -> retry, no session -> park and fetch); each decrypt handler delivers exactly once; a queued group message survives every receipt and a retry receipt re-encrypts the queued original once; every key-store write is committed when the store call returns. Ratchets, conversations, restarts are not decided.",
          "python-axolotl primitives trusted; exceptions are raised where the library documents them", "DESIGN.md §3 C03"),
- "C04": ("path/ordering facts in the noise glue, prologue/version constant agreement, must-call of the finish callback, per-attempt resource ownership (ast CFG)",
+ "C04": ("abstract execution of the noise glue with the consonance objects opaque, its parts found by role (protocol / stream / queue / lock / flush function / callbacks): two consecutive logins (client description per login), worker outcomes, state callback (changed / same / first key, transport / handshake state), receive (enqueue before the state is read), stream callbacks; CFG facts for the locked drain loop; C02.alts and C11 lock-set rules adopted",
          "Shape of the yowsup-side glue around consonance: prologue bytes agree with the protocol version constants; segmentation is off for the prologues and on afterwards; the finish callback is reached on every path of the worker; a failed handshake emits the event and sends a failure stanza up; a changed server key is written before frames are flushed; buffered frames are drained under one lock; disconnect resets. The Noise handshake itself and chunkings are not decided.",
          "consonance calls the state callback synchronously; known finding C04.attempt recorded", "DESIGN.md §3 C04"),
- "C05": ("dataflow independence from the chunk, peel-loop shape, linear slice arithmetic (read-cursor aware), dominating size guard, per-instance state (ast CFG)",
+ "C05": ("symbolic execution of one generic invocation of receive (sa/symbuf.py: linear integers, windows on an abstract byte stream, header decoders as fresh size symbols, loop-carried integers havocked): every path class is evaluated on a grid of symbol values (all tests are unit-coefficient linear inequalities) against 'deliver iff unread >= H + size, payload [H, H+size), advance H+size'; chunk independence as equality of the coefficients of old-bytes and chunk length; send abstractly executed at every byte-length boundary; per-instance state",
          "For every chunking: the received chunk flows only into the accumulation buffer and every decision, size and slice reads the buffer, frames are peeled in a loop whose single delivery is dominated by the completeness test, the slice arithmetic is header/payload/remainder exactly, the writer's header is the big-endian length truncated to the reader's header size and oversize payloads are refused on a path dominating both writes, and the accumulation buffer is a fresh per-instance object.",
          "bytearray slicing and struct big-endian semantics of CPython", "DESIGN.md §3 C05"),
  "C06": ("abstract interpretation of the assembled stack (the repository's own group / dispatch / handler code) over every cell of the input space induced by the handlers' own tests x 16 module selections x with/without encryption layers",
@@ -30,43 +30,43 @@ P = {
  "C07": ("abstract interpretation of the assembled stack counting acknowledgement effects per cell + provenance of their fields",
          "Exactly one ack per notification cell on every non-raising path with id/type/to/participant fed by the notification's own fields; call offers get one receipt with the call id, other call stanzas one ack; server pings get one pong with the request id; unsupported message payloads get one receipt (a handler that raises instead counts as none); no published or built composition holds an answering layer twice.",
          "the documented exclusion (picture neither set nor delete raises) is a table entry", "DESIGN.md §3 C07"),
- "C08": ("dominance facts on the two iq registries, sibling agreement of every receive override, callback arity binding, abstract execution of bounded send/reply histories (ast CFG + class hierarchy + abstract interpretation)",
+ "C08": ("abstract execution of send/reply histories on both registries, including the registry inspected at the moment the request goes down and a reply delivered again from inside its callback (entry gone before the callback runs); receive of every registry-owning layer executed with the registry answering True (nothing else may happen); callback arity binding (tables of names included); ids: the generator executed several times within one clock second across entity classes; per-instance state; who-may-remove",
          "Registry protocol decided on the source: the registry write dominates the send, the entry is deleted before any callback runs, result selects the success callback and error the error callback with (reply, original request), every receive in the layer hierarchy consults the registry before dispatch, every registered callback binds two positional arguments, the registries are per-instance objects, and every bounded history of sends and replies delivers each reply to its own callback once.",
          "dict semantics of CPython", "DESIGN.md §3 C08"),
  "C09": ("field provenance of fromProtocolTreeNode composed with toProtocolTreeNode on a symbolic stanza per cell, per receive-side entity class; per-element container allocation in converter loops; definite-type flow into the codec; C01 codec rules adopted (ast abstract interpretation)",
          "Field provenance: every attribute/child/data the serialiser writes is fed by the same path/key of the parsed stanza, every path/key the parser stores is written back, both converters return a value on every path, node API calls exist, containers filled per element are allocated per element, the codec the stanzas pass through is a round trip (C01 rules) and the payload converter of message entities is a bijection (C10 rules). Numeric/value-level equality is not decided.",
          "classes the interpreter cannot follow are reported as not analysed (coverage is reported)", "DESIGN.md §3 C09, §2.1"),
- "C10": ("bijection of the hand-written field maps, proto descriptor names extracted from the pb2 module AST, guard/field agreement and exclusivity, accessor agreement (ast)",
+ "C10": ("bijection of the hand-written field maps after source normalisation (table loops unrolled, getattr/setattr by constant name, extracted helpers inlined, single-use temporaries folded); presence tests must be `is not None` / HasField, never truthiness; proto descriptor names from the pb2 module AST; guard/field agreement and exclusivity; accessor agreement (ast)",
          "The converter is a bijection on the modelled fields: each attribute field maps to one proto field and back to the same attribute, every proto field named exists in the descriptor of its message type, HasField guards name the field they guard, no field copy depends on another attribute being absent, no proto field is written twice, the payload entity serialises its current attributes on every path, entity accessors return the attribute object the constructor populated. Protobuf's own encoding is trusted.",
          "google.protobuf encoding trusted; descriptors read from the serialized descriptor in the generated module", "DESIGN.md §3 C10"),
- "C11": ("lock-set argument over the resolved default stack: hand-over-hand lock, who-may-call, adjacency, exactly-once forwarding (ast + call graph)",
+ "C11": ("lock-set argument over the resolved default stack: hand-over-hand lock, who-may-call (aliases of the private link followed), adjacency, exactly-once forwarding and the stream's write callback by abstract execution, dispatcher buffer append order by abstract execution (ast + call graph + abstract interpretation)",
          "For every interleaving: the lower layer's send is entered only from toLower inside the critical section of the calling layer's lock, no layer of the default stack overrides toLower, coder/noise/segments/network are adjacent in all 16 default compositions, the cipher step is reachable only through the noise layer's send, both writes of a frame happen in one locked invocation, every core layer forwards exactly once.",
          "consonance's write_segment calls back synchronously; asyncore's buffer preserves append order", "DESIGN.md §3 C11"),
- "C12": ("release-on-every-path including exceptional exits (statement CFG with exceptional edges), consume-before-deliver / no-resume facts on delivery loops, lock-order graph acyclicity over the resolved stack",
+ "C12": ("release-on-every-path including exceptional exits (statement CFG with exceptional edges; `with` sections counted), a frame whose delivery raises is consumed (symbolic execution of the segment reader with the layer above raising), consume-before-deliver on the other delivery loops, no re-acquisition of a non-reentrant lock through a callback handed to an external object, lock-order graph acyclicity over the resolved stack",
          "Every lock acquire in the library reaches its release on every path to every exit including exceptional exits where any call may raise; delivery loops remove an element from layer state before its delivery can raise and no handler inside such a loop resumes it; events that can be raised from inside a send are detached; the lock-order graph over the resolved default stack is acyclic and no call chain re-acquires a non-reentrant lock it holds.",
          "application callbacks' own behaviour is outside; demos are out of scope", "DESIGN.md §3 C12"),
- "C13": ("SQL/commit effect sequences per store method on the CFG, schema/placeholder agreement (ast + SQL tokeniser)",
+ "C13": ("SQL/commit effect sequences per store API method on the CFG with private helpers inlined, schema/placeholder/column agreement through SQL expressions (COALESCE, aggregates), key-binding provenance through locals (ast + SQL tokeniser)",
          "For every crash point: every write statement is followed by a commit on every normal path, no commit separates the delete and the insert that replace one record in one API call, columns and placeholder counts agree with the CREATE TABLE, loaders select what the writers insert keyed by the same columns, blobs are stored as bytes.",
          "SQLite journalled transactions and sqlite3's implicit transaction on DML are trusted", "DESIGN.md §3 C13"),
- "C14": ("who-may-call of the sent flag, SQL constant consistency, provenance of the upload bundle, login-flow shape (ast + call graph)",
+ "C14": ("who-may-call of the sent flag; the pending predicate evaluated as SQL three-valued logic on the flag values NULL / 0 / written value / insert default; level_prekeys abstractly executed over (force, keys left) around the threshold; id encoding evaluated at every byte-length boundary; the login choreography as scenarios on one layer object (no attribute looked at by name); provenance of the upload bundle",
          "Bookkeeping shape: the sent flag is set only from the success callback of the upload request, the pending predicate / written value / insert default are mutually consistent, new ids continue after the stored maximum, the upload bundle takes identity, registration id and one signed-prekey record, unsent keys force a passive login and are flushed once. Histories and key use inside python-axolotl are not decided.",
          "python-axolotl trusted", "DESIGN.md §3 C14"),
- "C15": ("encrypt/decrypt symmetry on def-use terms of every path: KDF slices (through helpers, memo keys), pad/unpad on all paths, MAC before decrypt, per-kind constants (ast CFG)",
+ "C15": ("encrypt/decrypt symmetry on def-use terms of every path with private helpers inlined (branching derivation helpers judged on their own paths): KDF slices, pad/unpad on all paths (hand-made padding evaluated for every length class), MAC over iv||ciphertext (also hmac.new(key, msg)), MAC check before the decryptor, per-kind constants",
          "Encrypt and decrypt are structurally inverse for every input length: same derivation (a memoised derivation must be keyed by every parameter it depends on) and slices, padding on every path iff unpadding on every path, MAC over iv||ciphertext truncated to the length split off by decrypt, MAC check dominates the first decryptor use, four distinct per-kind info constants used symmetrically.",
          "cryptography primitives (AES-CBC, HKDF, HMAC, PKCS7) trusted", "DESIGN.md §3 C15"),
  "C16": ("finite automaton extracted from the network layer handlers by abstract execution + exhaustive exploration against a dispatcher contract incl. synchronous close reports; auth/interface/reset/keep-alive handlers by abstract execution; bounded ping histories",
          "Typestate of the connection handlers: connected implies state CONNECTED, DISCONNECTED emitted only on a transition into the disconnected state, nothing written while down, auth/authed/failure/stream-error handlers have the effects the property names, reconnect flag logic, protocol reset on disconnect, ping bookkeeping over all bounded histories, keep-alive started with empty bookkeeping. Timing and detached delivery order are not decided.",
          "environment contract of the dispatcher: connect is answered by connected or an error, a live connection may close or fail at any time, disconnect() is reported later or synchronously from inside the call, a close may be reported twice", "DESIGN.md §3 C16"),
- "C17": ("provenance of the trust comparison, auto-trust guard dominance, refuse paths, committed pin (ast CFG + SQL tokeniser)",
+ "C17": ("abstract execution of create_session (library refusing the bundle; flag on / off / omitted), of the receive handler (decryption refused once; option on / off / never set) and of the key-fetch continuation (one good and one refused jid); path-based guard: no pin overwrite reachable with the auto-trust switch off; provenance of the trust comparison; committed pin",
          "isTrustedIdentity returns true for unknown recipients and otherwise an equality between the stored key of that recipient and the presented key; every overwrite of a pinned identity is control-dependent on the auto-trust switch whose default is off; without auto-trust the untrusted paths refuse (re-raise, error list, no delivery); the pin is a committed row.",
          "python-axolotl raises UntrustedIdentityException from its own check of isTrustedIdentity", "DESIGN.md §3 C17"),
- "C18": ("call binding of the builder helpers, abstract evaluation of the 16 default compositions and 32 default stacks, wiring order, mirror-sibling isomorphism, stop/defer shape, group onEvent over all member answer vectors (ast + abstract interpretation)",
+ "C18": ("call binding of the builder helpers, abstract evaluation of the 16 default compositions (comprehension-built tables included) and 32 default stacks, YowStack construction abstractly executed on classes / tuple / instance (order, wiring, rejection, entry points), emit/broadcast executed against a neighbour that consumes or not for plain and detached events, group onEvent over all member answer vectors, per-instance state",
          "Every call among the builder helpers binds for all argument combinations; the 16 flag vectors evaluate to core + control + encryption group + exactly the selected modules and getDefaultStack builds exactly those layers for each of its 32 argument combinations; the parallel group reports an event as consumed iff a consulted member consumed it; event-callback tables are fresh per-instance objects; no helper extends a module-level list in place; _construct wires upper/lower in order; emit/broadcast and the parallel siblings are mirror images; continuation is guarded by the negated onEvent result and detached events are deferred once. Arbitrary user-built stacks are not decided.",
          "inspect/thread semantics of CPython", "DESIGN.md §3 C18"),
- "C19": ("transform-table agreement, constructor/attribute identity map, trial-parse detection strictness, atomic-save idiom incl. rename-after-close, directory-ensured path algebra, file modes (ast CFG)",
+ "C19": ("transform-table agreement after normalising dict(...) / dict.fromkeys tables and function-valued entries, constructor/attribute identity map, trial-parse detection strictness, atomic-save idiom incl. rename-after-close with private helpers inlined, directory-ensured path algebra, file modes (ast CFG)",
          "Forward and reverse transform maps agree and are applied in mirrored order, every serialised Config attribute is a constructor parameter mapped to its own attribute, extension and type maps cover both formats, a format tried earlier by the auto-detection rejects the documents of formats tried later, the save path writes a temporary file and renames it over the target after closing it, and the directory of the file being created is ensured. JSON/key=value value round trip is not decided.",
          "os.replace atomicity on POSIX", "DESIGN.md §3 C19"),
- "C20": ("keyed-hash construction shape, envelope provenance (fresh key pair, same pair both sides), parameter order, percent-encoding table and byte-wise quoting (ast dataflow)",
+ "C20": ("keyed-hash construction shape (hand-built or hmac.new with the key cut to one block), envelope provenance with helpers inlined (fresh key pair, same pair both sides), urlencode evaluated over its whole finite domain (every byte value, every ASCII character, non-ASCII samples) and urlencodeParams on ordered lists (abstract interpretation with urllib's quote as the only primitive)",
          "Construction shape only: the token has the HMAC shape (opad/ipad over a 64-byte key, inner over signature, class digest and number), the envelope uses a key pair generated inside the call for both the agreement and the prefix, the plaintext is the urlencoded parameter list in list order with every value passed through urlencode, each byte of a bytes value quoted as that byte. Equality with independent computations is not decided.",
          "cryptography primitives trusted", "DESIGN.md §3 C20"),
 }
